@@ -428,6 +428,32 @@ fn dump_body<'tcx>(tcx: TyCtxt<'tcx>, did: DefId, out: &mut String) {
         }
     }
     out.push(']');
+    dump_blocks(&cx, out);
+    // promoted constants of this body (needed to read `&CONST` operands of comparisons/fills)
+    out.push_str(",\"promoted\":[");
+    let proms = tcx.promoted_mir(did);
+    for (pi, pb) in proms.iter().enumerate() {
+        if pi > 0 {
+            out.push(',');
+        }
+        let pcx = Cx { tcx, body: pb, did, tenv };
+        out.push_str("{\"locals\":[");
+        for (i, (_l, d)) in pb.local_decls.iter_enumerated().enumerate() {
+            if i > 0 {
+                out.push(',');
+            }
+            let _ = write!(out, "{{\"ty\":{},\"mut\":{}}}", esc(&ty_str(d.ty)), d.mutability.is_mut());
+        }
+        out.push(']');
+        dump_blocks(&pcx, out);
+        out.push('}');
+    }
+    out.push_str("]}");
+}
+
+fn dump_blocks<'tcx, 'a>(cx: &Cx<'tcx, 'a>, out: &mut String) {
+    let tcx = cx.tcx;
+    let body = cx.body;
     // blocks
     out.push_str(",\"blocks\":[");
     for (bi, (_bb, data)) in body.basic_blocks.iter_enumerated().enumerate() {
@@ -566,7 +592,7 @@ fn dump_body<'tcx>(tcx: TyCtxt<'tcx>, did: DefId, out: &mut String) {
         out.push_str(&t);
         out.push('}');
     }
-    out.push_str("]}");
+    out.push(']');
 }
 
 fn unwind_str(u: &rustc_middle::mir::UnwindAction) -> String {
